@@ -1651,8 +1651,10 @@ def shapes_of(src: str):
             if isinstance(n, ast.Name) and n.id == v and n.lineno > f.end_lineno and not any(a <= n.lineno <= b for a, b in spans):
                 out.add("for-var-after-loop")
     for n in ast.walk(tree):
-        if isinstance(n, (ast.For, ast.comprehension)) and not (isinstance(n.iter, ast.Call) and isinstance(n.iter.func, ast.Name) and n.iter.func.id == "range"):
-            out.add("for-not-range")
+        # a `for` STATEMENT over anything but range(...) is rejected by the transpiler since "fix: reject statements the
+        # transpiler cannot translate instead of dropping them" (finding F-C06-for-over-list, fixed): no longer a guard shape
+        if isinstance(n, ast.comprehension) and not (isinstance(n.iter, ast.Call) and isinstance(n.iter.func, ast.Name) and n.iter.func.id == "range"):
+            out.add("comprehension-not-range")
         if isinstance(n, ast.ExceptHandler) and n.type is not None:
             out.add("named-except")
         if isinstance(n, ast.BinOp) and isinstance(n.op, ast.Add) and _is_strlit(n.left) and _is_strlit(n.right):
@@ -1759,6 +1761,8 @@ def repaired_region(src: str):
     for n in ast.walk(tree):
         if isinstance(n, ast.Constant) and isinstance(n.value, str) and not n.value.isprintable():
             out["string constant with a control character"] += 1
+        if isinstance(n, ast.For) and not (isinstance(n.iter, ast.Call) and isinstance(n.iter.func, ast.Name) and n.iter.func.id == "range"):
+            out["for statement over something else than range(...) (rejected since the repair of the silent drops)"] += 1
     return out
 
 
